@@ -3,7 +3,8 @@
    int = Z.  `btc_*` = the Base58 functions instantiated with the alphabet REGENERATED from /repo; the Bech32
    functions use the regenerated CHARSET, generator constants and BECH32M_CONST (Gen/GenCodecsC11.v). *)
 From PV Require Import Base.Bytes Base.Outcome Gen.GenCodecsC11 Model.Base58 Model.Bech32
-  Proofs.Base58P Proofs.Bech32P Proofs.Bech32StrP Proofs.Bech32DetectP Proofs.Bech32DetectStrP.
+  Proofs.Base58P Proofs.Bech32P Proofs.Bech32StrP Proofs.Bech32DetectP Proofs.Bech32DetectStrP
+  Proofs.Bech32Detect3P.
 Local Open Scope Z_scope.
 
 (* ================================ Base58 ================================================================== *)
@@ -228,3 +229,19 @@ Theorem C11_partial : forall hrp s s' v prog,
   decode hrp s' = None \/ exists v' prog', decode hrp s' = Some (v', prog') /\ version_flip v v'.
 Proof. exact segwit_detects_4_errors. Qed.
 Print Assumptions C11_partial.
+
+(* up to THREE characters: rejected without exception, the Bech32 <-> Bech32m switch included (second kernel
+   sweep: for data parts of 39 / 59 symbols — the only lengths a v0 address can have — no pattern of weight <= 3
+   that changes the first symbol has syndrome 1 ^ BECH32M_CONST).  So the exception of C11_partial needs exactly
+   four errors. *)
+Theorem C11_switch_sweep : forall L, L = 39%nat \/ L = 59%nat ->
+  forall a x u, 1 <= a <= 31 -> In x (0 :: singles_upto (L - 1)) -> In u (0 :: singles_upto (L - 1)) ->
+  Z.lxor (Z.lxor (S_ (L - 1) a) x) u <> flipC.
+Proof. exact sweep3_statement. Qed.
+Print Assumptions C11_switch_sweep.
+
+Theorem C11_segwit_detects_3_errors : forall hrp s s' v prog,
+  decode hrp s = Some (v, prog) -> length s' = length s ->
+  (str_hamming s s' <= 3)%nat -> map lower_c s' <> map lower_c s -> decode hrp s' = None.
+Proof. exact segwit_detects_3_errors. Qed.
+Print Assumptions C11_segwit_detects_3_errors.
